@@ -119,3 +119,17 @@ Ltac denC_simpl :=
 Ltac denC_simpl_in H :=
   cbv [denC wdC appC wd_headC map fold_right chd0 chd1 cpowQ wd_cpowQ CpowZ Cpow_pos Q2C CofZ CofPos
        Qnum Qden Pos.iter_op piecewiseC envC_of csym cfn clookup String.eqb Ascii.eqb Bool.eqb] in H.
+
+Lemma Q2C_R q : Q2C q = RtoC (Q2R' q).
+Proof.
+  destruct q as [n d]. unfold Q2C, Q2R'. cbn [Qnum Qden].
+  destruct d as [d'|d'|]; rewrite ?CofZ_R, ?CofPos_R, ?Cdiv_R; try reflexivity.
+  f_equal. unfold Rdiv. rewrite Rinv_1. ring.
+Qed.
+
+(* unfold the tree but keep numerals as [RtoC (Q2R' q)], ready for [lift_R] *)
+Ltac denC_simplR :=
+  cbv [denC wdC appC wd_headC map fold_right chd0 chd1 cpowQ wd_cpowQ Qnum Qden
+       piecewiseC envC_of csym cfn clookup String.eqb Ascii.eqb Bool.eqb];
+  rewrite ?Q2C_R;
+  cbv [Q2R' Qnum Qden].
